@@ -12,8 +12,16 @@ The specification side is `validate` / `wellFormed` of Json/Validator.lean.
 The statement at full strength (`C16_full`) is false of the code: `C16_full_refuted`
 (an Integer holding `True` serialises to `true`, which is not a JSON-Schema integer).
 Proved: the `_partial` theorems with the remaining side conditions `SchemaOK` /
-`ValueOK` spelled out, and `out_of_bounds_rejected` for every finite JSON number and
-every declaration whose bounds can be met at all (`Bounds.sane`).
+`ValueOK` spelled out; `schema_total` / `state_validates_total` (the schema and the
+serialized state exist — the `… = .ok …` hypotheses of the other theorems are met);
+`out_of_bounds_rejected` and `number_schema_agrees` / `integer_schema_agrees` for every
+finite JSON number and every declaration whose bounds can be met at all (`Bounds.sane`).
+
+Not covered by any theorem (harness only): the difference between class-level and
+instance-level schemas / per-instance Parameter edits (the theorems quantify over
+declarations; the harness feeds the edited declaration).  The element constraints that
+`numerictuple_schema` / `range_schema` put under `additionalItems` constrain nothing in
+JSON Schema without array-form `items`: for the Tuple family the schema checks length only.
 
 Only property theorems, their hypotheses' definitions and non-vacuity examples live
 here; helper lemmas are in Json/Lemmas.lean (`ClassSpec.exact`, `Bounds.sane`,
@@ -117,7 +125,9 @@ two recorded findings): `None` where the schema is nullable (`allow_None` or a `
 listed; no `bool` held by Integer / Number; items of a typed List and the value of a ClassSelector
 are *exact* instances (`ClassSpec.exact`: an `int` item is not a `bool`, and the classes `bool` and
 `list`, which the schema declares as `object`, do not occur); a Selector / ListSelector value is
-one of the objects itself (same type, not merely `==`). -/
+JSON-equal to one of the objects (`sameJson`: the object itself, or a non-bool number of equal
+value such as `1.0` for `1` — but not `True` for `1`, see `C16_selector_bool_refuted`); a Selector
+without objects takes anything (its schema is `{}`). -/
 def ValueOK (p : Param) (v : PyVal) : Prop :=
   (v = .none ∧ p.schemaNullable = true) ∨
   match p.cfg, v with
@@ -125,8 +135,8 @@ def ValueOK (p : Param) (v : PyVal) : Prop :=
   | .number _, .bool _ => False
   | .list (some s) _ _, .list l => l.all s.exact = true
   | .classSelector s, v => s.exact v = true
-  | .selector objs, v => v ∈ objs
-  | .listSelector objs, .list l => ∀ e ∈ l, e ∈ objs
+  | .selector objs, v => objs = [] ∨ ∃ o ∈ objs, sameJson v o = true
+  | .listSelector objs, .list l => ∀ e ∈ l, ∃ o ∈ objs, sameJson e o = true
   | _, .none => False
   | _, _ => True
 
@@ -304,16 +314,18 @@ theorem serialized_validates_partial (p : Param) (v : PyVal) (hsc : inScope16 p.
   | selector objs =>
     simp only [serializeValue, PCfg.serialize] at hj
     simp only [Param.baseSchema, selectorSchema] at hs0
-    have hmem : v ∈ objs := by simpa using hok
+    have hmem : objs = [] ∨ ∃ o ∈ objs, sameJson v o = true := by simpa using hok
     split at hs0
     · simp at hs0; subst hs0; simp [validate, validateKws]
     · simp at hs0; subst hs0; simp [validate, validateKws]
-    · rename_i ts _ hts
+    · rename_i ts hne hts
       split at hs0
       · simp at hs0
       · rename_i enum henum
         simp only [Except.ok.injEq] at hs0; subst hs0
-        exact validate_selector hts henum hmem hf hj
+        rcases hmem with rfl | ⟨o, ho, hso⟩
+        · simp [literalTypes] at hts; exact absurd hts hne
+        · exact validate_selector' hts henum ho hso hf hj
   | listSelector objs =>
     cases v <;> simp [Param.validB, PCfg.accepts] at hv
     · simp at hok
@@ -330,11 +342,12 @@ theorem serialized_validates_partial (p : Param) (v : PyVal) (hsc : inScope16 p.
         · simp at hs0
         · rename_i enum henum
           simp only [Except.ok.injEq] at hs0; subst hs0
-          have hmem : ∀ e ∈ l, e ∈ objs := by simpa using hok
+          have hmem : ∀ e ∈ l, ∃ o ∈ objs, sameJson e o = true := by simpa using hok
           simp only [validate, validateKws, jstr, hasType, Bool.true_and, Bool.and_true]
           exact dumpsL_all l js hjs (fun e he j hd => by
+            obtain ⟨o, ho, hso⟩ := hmem e he
             simpa [validate, validateKws] using
-              validate_enum hts henum (hmem e he) (finiteL_mem (by simpa [PyVal.finite] using hf) he) hd)
+              validate_enum' hts henum ho hso (finiteL_mem (by simpa [PyVal.finite] using hf) he) hd)
     · simp at hj
   | classSelector sp =>
     simp only [serializeValue, PCfg.serialize] at hj
@@ -424,6 +437,66 @@ theorem out_of_bounds_rejected (p : Param) (b : Bounds) (hc : p.cfg = .integer b
         rw [validate_numberSchema _ _ _ f hx hfin hsane] <;> simp [hout]
     cases p.schemaNullable <;> simp [validate_nullable, h0, hnull]
 
+/-! ## Totality: the hypotheses `… = .ok …` above are not vacuous -/
+
+/-- **C16: `schema()` returns.**  For every declaration whose constructor succeeds in the model
+(`Declarable`: the Tuple family has its `length`; a ListSelector's objects are literal-typed, else
+`listselector_schema` refuses with UnserializableException) the parameter has a schema entry. -/
+theorem schema_total (p : Param) (h : Declarable p = true) : ∃ s, p.schemaEntry = .ok s :=
+  schemaEntry_total p h
+
+/-- **C16 (object level, total form).**  For a class with distinct parameter names, declarable
+parameters and a reachable finite state satisfying `ValueOK` whose untyped containers hold
+JSON-native elements (`nativeElems`: otherwise `json.dumps` may raise), `Cls.param.schema()` and
+`serialize_parameters()` both *return*, and the returned state validates against the returned schema. -/
+theorem state_validates_total (st : List (Param × PyVal))
+    (hnd : ((st.map (·.1)).map (·.name)).Nodup)
+    (h : ∀ pv ∈ st, inScope16 pv.1.cfg = true ∧ pv.1.stateOK pv.2 = true ∧ pv.2.finite = true ∧ ValueOK pv.1 pv.2)
+    (hd : ∀ pv ∈ st, Declarable pv.1 = true ∧ nativeElems pv.1.cfg pv.2 = true) :
+    ∃ entries fields, schemaEntries none (st.map (·.1)) = .ok entries ∧
+      serializeParameters st none = .ok fields ∧
+      validate (objectSchema entries) (.obj fields) = true := by
+  obtain ⟨entries, he⟩ := schemaEntries_total none (st.map (·.1)) (by
+    intro p hp
+    obtain ⟨pv, hpv, rfl⟩ := List.mem_map.1 hp
+    exact (hd pv hpv).1)
+  obtain ⟨fields, hf⟩ := serializeParameters_total none st (fun pv hpv =>
+    serializeValue_total pv.1 pv.2 (h pv hpv).1 (h pv hpv).2.1 (hd pv hpv).2)
+  exact ⟨entries, fields, he, hf, state_validates_partial st hnd h entries fields he hf⟩
+
+/-! ## Schema and validator agree on numbers -/
+
+/-- **C16: the schema of a Number and its validator agree** for every bound / inclusivity /
+nullable combination with satisfiable bounds: a finite JSON number validates against the schema
+exactly when it is inside the declared hard bounds. -/
+theorem number_schema_agrees (p : Param) (b : Bounds) (hc : p.cfg = .number b) (hsane : b.sane = true)
+    (x : Json) (f : Fl) (hx : x.num? = some f) (hfin : f.isFinite = true)
+    (s : Json) (hs : p.schema = .ok s) : validate s x = b.contains f := by
+  have hnum : hasType "number" x = true := by
+    cases x <;> simp [Json.num?] at hx <;> simp [hasType]
+  have hnull : hasType "null" x = false := by
+    cases x <;> simp [Json.num?] at hx <;> simp [hasType]
+  unfold Param.schema at hs
+  split at hs
+  · simp at hs
+  · rename_i s0 hs0
+    simp only [Except.ok.injEq] at hs; subst hs
+    simp only [Param.baseSchema, hc, Except.ok.injEq] at hs0; subst hs0
+    cases p.schemaNullable <;>
+      simp [validate_nullable, validate_numberSchema _ _ _ f hx hfin hsane, hnum, hnull]
+
+/-- the same for an Integer and a JSON integer -/
+theorem integer_schema_agrees (p : Param) (b : Bounds) (hc : p.cfg = .integer b) (hsane : b.sane = true)
+    (n : Int) (s : Json) (hs : p.schema = .ok s) : validate s (.int n) = b.contains (Fl.ofInt n) := by
+  unfold Param.schema at hs
+  split at hs
+  · simp at hs
+  · rename_i s0 hs0
+    simp only [Except.ok.injEq] at hs; subst hs
+    simp only [Param.baseSchema, hc, Except.ok.injEq] at hs0; subst hs0
+    have hv := validate_numberSchema "integer" b (.int n) (Fl.ofInt n) rfl rfl hsane
+    cases p.schemaNullable <;> simp [validate_nullable, hv, hasType]
+
 /-! ## The full statement and its refutation -/
 
 /-- The property as stated (per parameter): for every in-scope declaration and every reachable
@@ -444,6 +517,19 @@ theorem C16_full_refuted : ¬ C16_full := by
   have := (h witnessInteger (.bool true) (by decide) (by decide) (by decide)
     (.obj [("type", jstr "integer"), ("title", jstr "I")]) rfl).2 (.bool true) rfl
   simp [validate, validateKws, jstr, hasType] at this
+
+def witnessSel : Param :=
+  { name := "s", cfg := .selector [.int 1, .int 2], allowNone := .undef, default := none, doc := none, label := "S" }
+
+/-- the same defect through a Selector (excluded from `ValueOK` by `sameJson`): `Selector(objects=[1, 2])`
+accepts `True` (`True == 1`), serialises `true`, and neither `{"type": "integer"}` nor `enum [1, 2]`
+admits a boolean -/
+theorem C16_selector_bool_refuted :
+    witnessSel.validB (.bool true) = true ∧
+    ∃ s, witnessSel.schemaEntry = .ok s ∧ validate s (.bool true) = false := by
+  refine ⟨by decide, .obj [("anyOf", .arr [typeObj "integer", typeObj "integer"]), ("enum", .arr [.int 1, .int 2]),
+    ("title", jstr "S")], rfl, ?_⟩
+  simp [validate, validateKws, validateAny, typeObj, jstr, hasType, Json.scalarEq]
 
 def witnessBound : Param :=
   { name := "n", cfg := .number ⟨some (some (.float .posInf), none), true, true⟩, allowNone := .undef,
@@ -484,14 +570,34 @@ def exState16 : List (Param × PyVal) :=
 
 example : ∀ p ∈ exState16.map (·.1), SchemaOK p = true := by decide
 
-example : ∀ pv ∈ exState16, inScope16 pv.1.cfg = true ∧ pv.1.validB pv.2 = true ∧ pv.2.finite = true ∧
-    ValueOK pv.1 pv.2 := by
+/-- lemma (non-vacuity): the example state satisfies every hypothesis of `state_validates_total` -/
+theorem exState16_hyps : ∀ pv ∈ exState16,
+    (inScope16 pv.1.cfg = true ∧ pv.1.stateOK pv.2 = true ∧ pv.2.finite = true ∧ ValueOK pv.1 pv.2) ∧
+    (Declarable pv.1 = true ∧ nativeElems pv.1.cfg pv.2 = true) := by
   intro pv h
   simp only [exState16, List.mem_cons, List.not_mem_nil, or_false] at h
   rcases h with h | h | h <;> subst h
-  · exact ⟨by decide, by decide +kernel, by decide, Or.inr (by simp [exNumber])⟩
-  · exact ⟨by decide, by decide, by decide, Or.inr (by simp [exSel])⟩
-  · exact ⟨by decide, by decide, by decide, Or.inr (by simp [exList, ClassSpec.exact, ClassAtom.exact])⟩
+  · exact ⟨⟨by decide, by decide +kernel, by decide, Or.inr (by simp [exNumber])⟩, by decide, by decide⟩
+  · exact ⟨⟨by decide, by decide, by decide, Or.inr (by
+      show ([PyVal.int 1, .str (.plain "a"), .none] = [] ∨
+        ∃ o ∈ [PyVal.int 1, .str (.plain "a"), .none], sameJson (.str (.plain "a")) o = true)
+      exact Or.inr ⟨.str (.plain "a"), by simp, by decide⟩)⟩, by decide, by decide⟩
+  · exact ⟨⟨by decide, by decide, by decide, Or.inr (by simp [exList, ClassSpec.exact, ClassAtom.exact])⟩,
+      by decide, by decide⟩
+
+/-- the theorem applied: schema and serialized state of the example exist and the state validates -/
+example : ∃ entries fields, schemaEntries none (exState16.map (·.1)) = .ok entries ∧
+    serializeParameters exState16 none = .ok fields ∧ validate (objectSchema entries) (.obj fields) = true :=
+  state_validates_total exState16 (by decide) (fun pv h => (exState16_hyps pv h).1) (fun pv h => (exState16_hyps pv h).2)
+
+/-- and evaluated: what the model's `serialize_parameters()` returns for it -/
+example : serializeParameters exState16 none =
+    .ok [("n", .float (.fin 2.25)), ("s", .str (.plain "a")), ("l", .arr [.int 3, .str (.plain "x")])] := rfl
+
+/-- `1.0` held by a Selector over `[1, 2]` is inside `ValueOK` (and validates); `True` is not -/
+example : ValueOK witnessSel (.float (.fin 1)) := Or.inr (by
+  show ([PyVal.int 1, .int 2] = [] ∨ ∃ o ∈ [PyVal.int 1, .int 2], sameJson (.float (.fin 1)) o = true)
+  exact Or.inr ⟨.int 1, by simp, by decide⟩)
 
 /-- an out-of-bounds probe for `exNumber`: 5.5 is excluded by the exclusive upper bound -/
 example : (⟨some (some (.int 0), some (.float (.fin 5.5))), true, false⟩ : Bounds).contains (.fin 5.5) = false := by
